@@ -48,13 +48,33 @@ func (p *c16Plan) next(kind string) bool {
 	return p.faults[fmt.Sprintf("%s/%d", kind, i)]
 }
 
+// c16RealExitError: what the real process runner returns for a child that was started and exited non-zero is an
+// *exec.ExitError; the fake runner hands out a genuine one (obtained once from a real child), so that code which treats
+// that error type specially (exit-status forwarding) is on the path.  Without a shell it falls back to a plain error.
+func c16RealExitError() error {
+	for _, sh := range []string{"/bin/sh", "/usr/bin/sh", "/bin/false", "/usr/bin/false"} {
+		var c *exec.Cmd
+		if strings.HasSuffix(sh, "sh") {
+			c = exec.Command(sh, "-c", "exit 1")
+		} else {
+			c = exec.Command(sh)
+		}
+		err := c.Run()
+		var ee *exec.ExitError
+		if errors.As(err, &ee) {
+			return err
+		}
+	}
+	return errors.New("exit status 1")
+}
+
 func (p *c16Plan) log(kind, path string, flag any) {
 	p.trace = append(p.trace, []any{kind, hex.EncodeToString([]byte(path)), flag})
 }
 
 var (
 	errC16Fault  = errors.New("injected fault")
-	errC16Exit   = errors.New("exit status 1")
+	errC16Exit   = c16RealExitError()
 	errC16Open   = errors.New("open failed")
 	errC16Closed = errors.New("file already closed")
 )
